@@ -88,11 +88,11 @@ def frag_body(rng, depth):
     return ('s',)
 def frag_tree(rng, depth=0):
     """a random statement list of the fragment of Model/Fragment.v:
-    ('s',) | ('a',) | ('b', body) | ('r', body) | ('t', body, fin) | ('i', tbody) | ('e', tbody, tbody) | ('w', tbody)
+    ('s',) | ('a',) | ('b', body) | ('r', body) | ('t', body, fin) | ('x', body, exc) | ('i', tbody) | ('e', tbody, tbody) | ('w', tbody)
     with tbody = ('s',) | ('a',) | ('b', body)"""
     out = []
     for _ in range(rng.randrange(0, 5 if depth < 4 else 2)):
-        c = rng.randrange(10)
+        c = rng.randrange(11)
         if c == 0 and depth < 6: out.append(('b', frag_tree(rng, depth + 1)))
         elif c == 1 and depth < 6: out.append(('r', frag_tree(rng, depth + 1)))
         elif c == 2 and depth < 6: out.append(('t', frag_tree(rng, depth + 1), frag_tree(rng, depth + 1)))
@@ -100,6 +100,7 @@ def frag_tree(rng, depth=0):
         elif c == 4: out.append(('i', frag_body(rng, depth)))
         elif c == 5: out.append(('e', frag_body(rng, depth), frag_body(rng, depth)))
         elif c == 6: out.append(('w', frag_body(rng, depth)))
+        elif c == 7 and depth < 6: out.append(('x', frag_tree(rng, depth + 1), frag_tree(rng, depth + 1)))
         else: out.append(('s',))
     return out
 def frag_body_text(b, rng, ind):
@@ -116,7 +117,7 @@ def frag_text(tree, rng, ind=1):
         elif t[0] == 'a': parts.append(pad + "x" + rng.choice([" := ", ":="]) + "y;")
         elif t[0] == 'b': parts.append(pad + "begin" + sp() + frag_text(t[1], rng, ind + 1) + sp() + pad + "end;")
         elif t[0] == 'r': parts.append(pad + "repeat" + sp() + frag_text(t[1], rng, ind + 1) + sp() + pad + "until Done;")
-        elif t[0] == 't': parts.append(pad + "try" + sp() + frag_text(t[1], rng, ind + 1) + sp() + pad + "finally" + sp()
+        elif t[0] in ('t', 'x'): parts.append(pad + "try" + sp() + frag_text(t[1], rng, ind + 1) + sp() + pad + ("finally" if t[0] == 't' else "except") + sp()
                            + frag_text(t[2], rng, ind + 1) + sp() + pad + "end;")
         elif t[0] == 'i': parts.append(pad + "if Cond then" + sp() + frag_body_text(t[1], rng, ind) + rng.choice([";", " ;"]))
         elif t[0] == 'e': parts.append(pad + "if Cond then" + sp() + frag_body_text(t[1], rng, ind) + sp() + "else" + sp()
@@ -145,7 +146,7 @@ def frag_expected(tree, d, k, out, par=None):
         elif t[0] == 'r':
             out.append((lv(d), par, [k])); k = frag_expected(t[1], d + 1, k + 1, out, par)
             out.append((lv(d), par, [k, k + 1, k + 2])); k += 3
-        elif t[0] == 't':
+        elif t[0] in ('t', 'x'):
             out.append((lv(d), par, [k])); k = frag_expected(t[1], d + 1, k + 1, out, par)
             out.append((lv(d), par, [k])); k = frag_expected(t[2], d + 1, k + 1, out, par)
             out.append((lv(d), par, [k, k + 1])); k += 2
@@ -163,7 +164,7 @@ def frag_len(tree):
         n += {'s': 2, 'a': 4}.get(t[0], 0)
         if t[0] == 'b': n += 3 + frag_len(t[1])
         elif t[0] == 'r': n += 4 + frag_len(t[1])
-        elif t[0] == 't': n += 4 + frag_len(t[1]) + frag_len(t[2])
+        elif t[0] in ('t', 'x'): n += 4 + frag_len(t[1]) + frag_len(t[2])
         elif t[0] in ('i', 'w'): n += 4 + bl(t[1])
         elif t[0] == 'e': n += 5 + bl(t[1]) + bl(t[2])
     return n
